@@ -41,6 +41,7 @@ def closure_sel(trait_closure, wb, post, ctor, fut=False):
 
 def unit():
     items = [
+        Sel('type Ofb'),
         Sel('struct OfbCore'),
         Sel('impl BlockSizeUser for OfbCore'),
         Sel('impl InnerUser for OfbCore'),
@@ -83,4 +84,4 @@ def unit():
         Sel('impl BlockModeDecBackend for Backend', members=K.backend_members('ofb_step(self.backend.enc_fn())'),
             fns={'decrypt_block': block_fn('BlockModeDecBackend')}),
     ]
-    return Unit('ofb', prelude=K.PRELUDE_BLOCK, spec=['steps.rs'], mods=K.DEPS() + [Mod('ofb_lib', 'ofb/src/lib.rs', items=items)])
+    return Unit('ofb', prelude=K.PRELUDE_BLOCK, spec=['steps.rs', 'wrapper_defs.rs'], mods=K.DEPS(wrapper=True) + [Mod('ofb_lib', 'ofb/src/lib.rs', items=items)])
